@@ -29,13 +29,13 @@ open ChemModel ChemModel.Gen ChemModel.PhysProps
 /-- water_density: for a temperature of `τ` kelvin-units given with ANY units object (scale factors `K`, `m`, `kg`),
     the unit-mode value is the plain value times `kg / m³`. -/
 theorem water_density_unit_mode_agrees (τ K m kg : ℝ) (hK : K ≠ 0) :
-    waterDensityU (τ * K) K m kg = waterDensity τ * (kg / m ^ 3) := by
+    waterDensityU (τ * K) K kg m = waterDensity τ * (kg / m ^ 3) := by
   rw [waterDensityU_eq _ _ _ _ hK, mul_div_cancel_right₀ _ hK]
 
 /-- the same for an input in ANY compatible unit: only the SI value `Tsi` of the input matters, the plain function is
     evaluated at the magnitude `Tsi / K` of that temperature in the documented unit. -/
 theorem water_density_any_compatible_unit (Tsi K m kg : ℝ) (hK : K ≠ 0) :
-    waterDensityU Tsi K m kg = waterDensity (Tsi / K) * (kg / m ^ 3) :=
+    waterDensityU Tsi K kg m = waterDensity (Tsi / K) * (kg / m ^ 3) :=
   waterDensityU_eq Tsi K m kg hK
 
 /-- water_viscosity (as repaired: the constants carry K): result in `units.centipoise` -/
@@ -50,12 +50,12 @@ theorem water_diffusivity_unit_mode_agrees (τ K m s : ℝ) (hK : K ≠ 0) :
 
 /-- water_permittivity: temperature in `units.kelvin`, pressure in `units.bar`, the result is a pure number -/
 theorem water_permittivity_unit_mode_agrees (τ p K bar : ℝ) (hK : K ≠ 0) (hb : bar ≠ 0) :
-    waterPermittivityU (τ * K) (p * bar) K bar = waterPermittivity τ p :=
+    waterPermittivityU (τ * K) (p * bar) bar K = waterPermittivity τ p :=
   waterPermittivityU_eq τ p K bar hK hb
 
 /-- sulfuric_acid_density (as repaired: `t_K = to_unitless(t / K)` before `float`): result in `kilogram / meter³` -/
 theorem sulfuric_acid_density_unit_mode_agrees (w τ K m kg : ℝ) (hK : K ≠ 0) :
-    sulfuricAcidDensityU w (τ * K) K m kg = sulfuricAcidDensity w τ * (kg / m ^ 3) :=
+    sulfuricAcidDensityU w (τ * K) K kg m = sulfuricAcidDensity w τ * (kg / m ^ 3) :=
   sulfuricAcidDensityU_eq w τ K m kg hK
 
 /-- inputs in ANY compatible unit (mK, degR, Pa, atm …): only the SI values `Tsi`, `Psi` of the inputs enter; the plain function
@@ -64,8 +64,8 @@ theorem sulfuric_acid_density_unit_mode_agrees (w τ K m kg : ℝ) (hK : K ≠ 0
 theorem any_compatible_unit (Tsi Psi w cP K m kg s bar H θ : ℝ) (hK : K ≠ 0) (hb : bar ≠ 0) :
     waterViscosityU Tsi cP K = waterViscosity (Tsi / K) * cP ∧
     waterDiffusivityU Tsi K m s = waterDiffusivity (Tsi / K) * (m ^ 2 / s) ∧
-    waterPermittivityU Tsi Psi K bar = waterPermittivity (Tsi / K) (Psi / bar) ∧
-    sulfuricAcidDensityU w Tsi K m kg = sulfuricAcidDensity w (Tsi / K) * (kg / m ^ 3) ∧
+    waterPermittivityU Tsi Psi bar K = waterPermittivity (Tsi / K) (Psi / bar) ∧
+    sulfuricAcidDensityU w Tsi K kg m = sulfuricAcidDensity w (Tsi / K) * (kg / m ^ 3) ∧
     henryHAtTDefaultU Tsi H θ K = henryHAtTDefault (Tsi / K) H (θ / K) := by
   have hT : Tsi / K * K = Tsi := div_mul_cancel₀ Tsi hK
   have hP : Psi / bar * bar = Psi := div_mul_cancel₀ Psi hb
@@ -114,20 +114,92 @@ theorem water_diffusivity_err_mult_unit_mode_agrees (τ e0 e1 K m s : ℝ) (hK :
 /-- nernst_potential (as repaired: the ratio is converted with `to_unitless`): concentrations in ANY common-dimension
     unit `x` (mM, M, mol/m³ …: only the ratio of SI values enters), result in `joule / coulomb` -/
 theorem nernst_unit_mode_agrees (a b z τ C mol J K x : ℝ) (hK : K ≠ 0) (hmol : mol ≠ 0) (hx : x ≠ 0) :
-    nernstPotentialU (a * x) (b * x) z (τ * K) C mol J K = nernstPotential a b z τ * (J / C) :=
+    nernstPotentialU (a * x) (b * x) z (τ * K) C J K mol = nernstPotential a b z τ * (J / C) :=
   nernstPotentialU_eq a b z τ C mol J K x hK hmol hx
-
-/-- the two concentrations may even be given in two different units (145 mM outside, 0.015 M inside) -/
-theorem nernst_mixed_concentration_units (a b z τ C mol J K x y : ℝ) (hK : K ≠ 0) (hmol : mol ≠ 0) (hx : x ≠ 0) (hy : y ≠ 0) :
-    nernstPotentialU (a * x) (b * y) z (τ * K) C mol J K = nernstPotential (a * x) (b * y) z τ * (J / C) := by
-  have := nernstPotentialU_eq (a * x) (b * y) z τ C mol J K 1 hK hmol one_ne_zero
-  simpa using this
 
 /-- electrical_mobility_from_D (as repaired: kB in J/K): diffusion coefficient in any unit `d`, result in `d * coulomb / joule`
     (= m²/(V s) for `d` = m²/s): no spurious `mol` -/
 theorem mobility_unit_mode_agrees (δ z τ J K C d : ℝ) (hK : K ≠ 0) :
-    mobilityU (δ * d) z (τ * K) J K C = mobility δ z τ * (d * C / J) :=
+    mobilityU (δ * d) z (τ * K) C J K = mobility δ z τ * (d * C / J) :=
   mobilityU_eq δ z τ J K C d hK
+
+/-! ## 1b. the same in the quantity algebra (L2): what `to_unitless` is there for
+`UV ℝ` / `UVm ℝ` (Model/PhysProps.lean): plain number | quantity = magnitude × (factor, dimension vector) | exception, with the arithmetic of
+`quantities` (numpy functions refuse a quantity that is not dimensionless with factor 1; `math.log(q)` = log of the RAW magnitude; `float(q)` =
+raw magnitude).  `UVraw` / `UVmraw` are the same algebras in which `to_unitless` does nothing, i.e. the generated text with the `to_unitless` calls
+removed (the text before the repairs).  In each pair below the first theorem says: WITH the code's `to_unitless` the result depends only on the SI
+values of the inputs (whatever units they are expressed in), the `…_needs_to_unitless_witness` says: WITHOUT it, it does not. -/
+
+/-- nernst_potential(c_out, c_in, z, T, constants): concentrations `a` in a unit of factor `x` and `b` in a unit of factor `y` (145 mM, 0.015 M),
+    temperature `τ` in a unit of factor `k`: the SI value of the result is the plain-number Nernst potential of the SI values, dimension of `T`·R/F. -/
+theorem nernst_quantity_algebra_unit_independent (a x b y z τ k F R : ℝ) (d Td : Units.Dims) :
+    UV.si (nernstPotentialCU (α := UVm ℝ) (UV.mk a x d) (UV.mk b y d) (UV.num z) (UV.mk τ k Td) (UV.num F) (UV.num R))
+      = some (nernstPotentialC (a * x) (b * y) z (τ * k) F R, Td) := by
+  rw [nernstCU_L2_si, nernstC_eq]
+
+/-- mixed prefixes: the same two concentrations written as (145 mM, 0.015 M) or (0.145 M, 15 mM) or … give the same potential -/
+theorem nernst_mixed_concentration_units (a x b y a' x' b' y' z τ k F R : ℝ) (d Td : Units.Dims)
+    (ha : a * x = a' * x') (hb : b * y = b' * y') :
+    UV.si (nernstPotentialCU (α := UVm ℝ) (UV.mk a x d) (UV.mk b y d) (UV.num z) (UV.mk τ k Td) (UV.num F) (UV.num R))
+    = UV.si (nernstPotentialCU (α := UVm ℝ) (UV.mk a' x' d) (UV.mk b' y' d) (UV.num z) (UV.mk τ k Td) (UV.num F) (UV.num R)) := by
+  rw [nernst_quantity_algebra_unit_independent, nernst_quantity_algebra_unit_independent, ha, hb]
+
+/-- the defect named in the property text is expressible: without `to_unitless`, `math.log` takes the raw magnitude of `mM / M`, and
+    145 mM / 0.015 M gives a different potential than 0.145 M / 0.015 M (off by ln 1000 · RT/zF) -/
+theorem nernst_needs_to_unitless_witness :
+    UV.si (nernstPotentialCU (α := UVmraw ℝ) (UV.mk 145 1 cdim) (UV.mk 0.015 1000 cdim) (UV.num 1) (UV.mk 310 1 Tdim') (UV.num 96485.3399) (UV.num 8.314472))
+    ≠ UV.si (nernstPotentialCU (α := UVmraw ℝ) (UV.mk 0.145 1000 cdim) (UV.mk 0.015 1000 cdim) (UV.num 1) (UV.mk 310 1 Tdim') (UV.num 96485.3399) (UV.num 8.314472)) :=
+  nernst_raw_witness
+
+/-- water_viscosity with a units object in the quantity algebra: temperature `x` in ANY temperature unit (factor `f`), `units.kelvin` of factor `k`,
+    `units.centipoise` of factor `c`: the result is the quantity (plain value at the temperature's magnitude in `units.kelvin`) × centipoise -/
+theorem water_viscosity_quantity_algebra_agrees (x f c k : ℝ) (hf : f ≠ 0) (hk : k ≠ 0) :
+    waterViscosityU (α := UV ℝ) (UV.mk x f Tdim') (UV.mk 1 c Pdim) (UV.mk 1 k Tdim') = UV.mk (waterViscosity (x * f / k)) c Pdim :=
+  viscU_L2 x f c k hf hk
+
+/-- without `to_unitless` the exponent `K/mK` is refused ("exponent must be dimensionless"): 300000 mK gives no value (ℚ; the power function is a
+    placeholder that is never reached, `UV.transc_err`) -/
+theorem water_viscosity_needs_to_unitless_witness :
+    (letI : HasRPow Rat := ⟨fun x _ => ratPlaceholder x⟩
+     UV.si (waterViscosityU (α := UVraw Rat) (UV.mk 300000 (1/1000) Tdim') (UV.mk 1 (1/1000) Pdim) (UV.mk 1 1 Tdim'))) = none :=
+  visc_raw_witness
+
+/-- Henry_H_at_T with a units object in the quantity algebra: `T` in a unit of factor `f`, `Tderiv` in a unit of factor `g`, `units.Kelvin` of factor
+    `k`: a plain-number exponent that depends only on the SI values `τ·f`, `θ·g` -/
+theorem henry_quantity_algebra_unit_independent (τ f H θ g k : ℝ) (hf : f ≠ 0) (hk : k ≠ 0) :
+    henryHAtTDefaultU (α := UV ℝ) (UV.mk τ f Tdim') (UV.num H) (UV.mk θ g Tdim') (UV.mk 1 k Tdim')
+      = UV.num (henryHAtTDefault (τ * f / k) H (θ * g / k)) := by
+  rw [henryDefaultU_L2, henryHAtTDefault_eq, henryHAtT_eq]
+  congr 3
+  by_cases hτ : τ = 0
+  · subst hτ; simp; field_simp
+  · field_simp
+
+/-- without `to_unitless`, `np.exp` of the unsimplified `K/mK` exponent is refused (ValueError) -/
+theorem henry_needs_to_unitless_witness :
+    (letI : HasExp Rat := ⟨ratPlaceholder⟩
+     UV.si (henryHAtTDefaultU (α := UVraw Rat) (UV.mk 300000 (1/1000) Tdim') (UV.num (12/10000)) (UV.mk 1800 1 Tdim') (UV.mk 1 1 Tdim'))) = none :=
+  henry_raw_witness
+
+/-- sulfuric_acid_density: the number handed to `float()` is the reduced temperature computed from SI values, for `T` in any temperature unit -/
+theorem sulfuric_float_tK_quantity_algebra_unit_independent (w x f k m g : ℝ) (Ld Md : Units.Dims) (hf : f ≠ 0) (hk : k ≠ 0) :
+    UV.float (sulfuricTU (α := UV ℝ) (UV.num w) (UV.mk x f Tdim') (UV.mk 1 k Tdim') (UV.mk 1 g Md) (UV.mk 1 m Ld))
+      = .ok (sulfuricT w (x * f / k)) := by
+  rw [sulfuricTU_L2]
+  simp only [UV.float, sulfuricT, NumReal.dec_eq, Int.cast_ofNat, Nat.cast_one]
+  congr 1
+  field_simp
+  norm_num
+  ring
+
+/-- without `to_unitless`, `float(t / K)` is the raw magnitude: 300000 mK and 300 K give different densities (3.04e12 vs 1392.76 kg/m³) — and
+    with it they agree -/
+theorem sulfuric_needs_to_unitless_witness :
+    UV.si (sulfuricAcidDensityUVraw (1/2 : Rat) (UV.mk 300000 (1/1000) Tdim') (UV.mk 1 1 Tdim') (UV.mk 1 1 [0,1,0,0,0,0,0]) (UV.mk 1 1 [1,0,0,0,0,0,0]))
+      ≠ UV.si (sulfuricAcidDensityUVraw (1/2 : Rat) (UV.mk 300 1 Tdim') (UV.mk 1 1 Tdim') (UV.mk 1 1 [0,1,0,0,0,0,0]) (UV.mk 1 1 [1,0,0,0,0,0,0]))
+    ∧ UV.si (sulfuricAcidDensityUV (1/2 : Rat) (UV.mk 300000 (1/1000) Tdim') (UV.mk 1 1 Tdim') (UV.mk 1 1 [0,1,0,0,0,0,0]) (UV.mk 1 1 [1,0,0,0,0,0,0]))
+      = UV.si (sulfuricAcidDensityUV (1/2 : Rat) (UV.mk 300 1 Tdim') (UV.mk 1 1 Tdim') (UV.mk 1 1 [0,1,0,0,0,0,0]) (UV.mk 1 1 [1,0,0,0,0,0,0])) :=
+  ⟨sulfuric_raw_witness, sulfuric_L2_example⟩
 
 /-! ## 2. warnings: emitted iff outside the documented range
 Reference ranges (docstrings / messages of the source, papers): water density 0–40 °C (Tanaka 2001), viscosity 0–100 °C
@@ -169,9 +241,9 @@ theorem sulfuric_acid_density_warn_iff_outside_range (w T : ℝ) :
 
 /-- the range check in unit mode is the plain one (positive scale factor of `units.Kelvin`) -/
 theorem water_density_warn_unit_mode (τ K m kg : ℝ) (hK : 0 < K) :
-    waterDensityUWarns (τ * K) K m kg = waterDensityWarns τ := by
+    waterDensityUWarns (τ * K) K kg m = waterDensityWarns τ := by
   rw [Bool.eq_iff_iff, waterDensityWarns_iff]
-  simp only [waterDensityUWarns, NumReal.npow_eq_pow, NumReal.dec_eq, Int.cast_ofNat, Nat.cast_ofNat, Nat.cast_one,
+  simp only [waterDensityUWarns, PyFn.warnGate, PyFn.anyS, Bool.true_and, NumReal.npow_eq_pow, NumReal.dec_eq, Int.cast_ofNat, Nat.cast_ofNat, Nat.cast_one,
     Int.cast_neg, Bool.or_eq_true, decide_eq_true_eq, Nat.cast_zero]
   constructor
   · rintro (h | h)
@@ -205,6 +277,52 @@ theorem water_density_anchor_docstring : 999.965 ≤ waterDensity (277.13 : ℝ)
 /-- Korson's table: exactly 1.0020 cP at 20 °C (the exponent vanishes) -/
 theorem water_viscosity_anchor_20C : waterViscosity (293.15 : ℝ) = 1.002 := anchor_viscosity_20
 
+/-- Korson's Table II as quoted in test_water_viscosity (21 temperatures, tolerance 5e-4 cP; 6e-4 at 95 °C, 2e-3 at 100 °C), stated on the
+    EXPONENT of the correlation, which is rational: `η = 1.002 · 10^e(T)` (`waterViscosity_eq`), and `|η − v| < tol` iff
+    `log10((v − tol)/1.002) < e(T) < log10((v + tol)/1.002)`; the decimal bounds below are these logarithms rounded outwards to 6 places
+    (computed in tools, trusted arithmetic).  Depends on A, B and C: a changed digit of any of them moves `e` out of an interval. -/
+theorem water_viscosity_exponent_anchor_values :
+    (0.252252 < viscExponent (273.15 + 0) ∧ viscExponent (273.15 + 0) < 0.252495) ∧
+    (0.180604 < viscExponent (273.15 + 5) ∧ viscExponent (273.15 + 5) < 0.180891) ∧
+    (0.115208 < viscExponent (273.15 + 10) ∧ viscExponent (273.15 + 10) < 0.115541) ∧
+    (0.055160 < viscExponent (273.15 + 15) ∧ viscExponent (273.15 + 15) < 0.055542) ∧
+    (-0.000217 < viscExponent (273.15 + 20) ∧ viscExponent (273.15 + 20) < 0.000217) ∧
+    (-0.051576 < viscExponent (273.15 + 25) ∧ viscExponent (273.15 + 25) < -0.051087) ∧
+    (-0.099410 < viscExponent (273.15 + 30) ∧ viscExponent (273.15 + 30) < -0.098864) ∧
+    (-0.144139 < viscExponent (273.15 + 35) ∧ viscExponent (273.15 + 35) < -0.143535) ∧
+    (-0.186155 < viscExponent (273.15 + 40) ∧ viscExponent (273.15 + 40) < -0.185489) ∧
+    (-0.225768 < viscExponent (273.15 + 45) ∧ viscExponent (273.15 + 45) < -0.225038) ∧
+    (-0.263199 < viscExponent (273.15 + 50) ∧ viscExponent (273.15 + 50) < -0.262404) ∧
+    (-0.298696 < viscExponent (273.15 + 55) ∧ viscExponent (273.15 + 55) < -0.297834) ∧
+    (-0.332389 < viscExponent (273.15 + 60) ∧ viscExponent (273.15 + 60) < -0.331457) ∧
+    (-0.364481 < viscExponent (273.15 + 65) ∧ viscExponent (273.15 + 65) < -0.363478) ∧
+    (-0.395132 < viscExponent (273.15 + 70) ∧ viscExponent (273.15 + 70) < -0.394056) ∧
+    (-0.424527 < viscExponent (273.15 + 75) ∧ viscExponent (273.15 + 75) < -0.423375) ∧
+    (-0.452725 < viscExponent (273.15 + 80) ∧ viscExponent (273.15 + 80) < -0.451496) ∧
+    (-0.479992 < viscExponent (273.15 + 85) ∧ viscExponent (273.15 + 85) < -0.478684) ∧
+    (-0.506296 < viscExponent (273.15 + 90) ∧ viscExponent (273.15 + 90) < -0.504907) ∧
+    (-0.532078 < viscExponent (273.15 + 95) ∧ viscExponent (273.15 + 95) < -0.530310) ∧
+    (-0.559487 < viscExponent (273.15 + 100) ∧ viscExponent (273.15 + 100) < -0.553244) := by
+  simp only [viscExponent]
+  norm_num
+
+/-- the viscosity IS `1.002 · 10^e(T)` with that exponent (ties the anchors above to the translated function) -/
+theorem water_viscosity_closed_form (T : ℝ) : waterViscosity T = 1.002 * (10 : ℝ) ^ viscExponent T := waterViscosity_eq T
+
+/-- test_lg_solubility_ratio: N2O in 0.05 M NaBr; the hand value `(−0.0110 + 0.0137)·0.05 + (−0.0110 + 0.1171)·0.05 = 0.00544` (exact, ℚ) -/
+theorem lg_solubility_ratio_anchor_value :
+    lgSolubilityRatio (1 : Rat) [("Br-", 5/100), ("Na+", 5/100)] "N2O" = .ok (544/100000) := by decide +kernel
+
+/-- values of the Myhre table at five (w, T) to 1e-9 kg/m³ (reference values of the unchanged `_data`; a changed digit of the table that moves the
+    density by more than that at these points is detected) -/
+theorem sulfuric_acid_density_table_anchor_values :
+    |sulfuricAcidDensity (1/10 : Rat) (27315/100) - 10733191493868799/10000000000000| < 1/1000000000 ∧
+    |sulfuricAcidDensity (3/10 : Rat) (28315/100) - 12255658926335814/10000000000000| < 1/1000000000 ∧
+    |sulfuricAcidDensity (5/10 : Rat) (29315/100) - 13959236664874945/10000000000000| < 1/1000000000 ∧
+    |sulfuricAcidDensity (7/10 : Rat) (30315/100) - 16109077539287246/10000000000000| < 1/1000000000 ∧
+    |sulfuricAcidDensity (9/10 : Rat) (32315/100) - 19044226931401354/10000000000000| < 1/1000000000 := by
+  decide +kernel
+
 /-- docstring `'%d' % sulfuric_acid_density(.5, 293)` = `1396`; test: `|1063.8 - rho(0.1, 298)| < 0.1` -/
 theorem sulfuric_acid_density_anchor_values :
     ((1396 : Rat) ≤ sulfuricAcidDensity (1/2 : Rat) 293 ∧ sulfuricAcidDensity (1/2 : Rat) 293 < 1397) ∧
@@ -231,8 +349,10 @@ theorem water_density_maximum_near_4C :
 theorem water_viscosity_strictly_decreasing {T1 T2 : ℝ} (h0 : 273.15 ≤ T1) (h12 : T1 < T2) (h2 : T2 ≤ 373.15) :
     waterViscosity T2 < waterViscosity T1 := waterViscosity_strictAnti h0 h12 h2
 
-/-- PARTIAL: permittivity falls strictly with temperature over 0–350 °C at the reference pressure 1000 bar (where the
-    logarithmic pressure term vanishes).  Full statement (not proved): the same at every fixed pressure of the range. -/
+/-- PARTIAL: permittivity falls strictly with temperature over 0–350 °C AT THE REFERENCE PRESSURE 1000 bar ONLY, where the logarithmic pressure
+    term is `C · log 1 = 0` (`B + 1000 ≠ 0` on the range is not needed: `Real.log` is total, and at 1000 bar the argument is 1 or 0/0).
+    GAP: the default pressure of the function is 1 bar; the full statement (strictly decreasing in T at every fixed pressure of the range,
+    in particular at 1 bar) is NOT proved here — it is sampled by the oracle on the real code (grid at 1 bar). -/
 theorem water_permittivity_strictly_decreasing_partial {T1 T2 : ℝ} (h0 : 273.15 ≤ T1) (h12 : T1 < T2) (h2 : T2 ≤ 623.15) :
     waterPermittivity T2 1000 < waterPermittivity T1 1000 := waterPermittivity_1000_strictAnti h0 h12 h2
 
@@ -252,20 +372,24 @@ theorem henry_inverse (h : Henry ℝ) (T x : ℝ) (hH : h.Hcp ≠ 0) :
     h.getP T (h.getC T x) = x ∧ h.getC T (h.getP T x) = x :=
   ⟨Henry.getP_getC h T x hH, Henry.getC_getP h T x hH⟩
 
-/-- Nernst equation `E = R T / (z F) · ln(c_out / c_in)` with the constants of the source (or the given ones); exchanging the
+/-- Nernst equation `E = R T / (z F) · ln(c_out / c_in)` with the constants of the source (or the given ones), on the domain on which the Python
+    returns a number (positive concentrations, non-zero charge; `math.log` raises ValueError otherwise, `/` ZeroDivisionError); exchanging the
     two sides changes the sign, equal concentrations give 0 -/
-theorem nernst_spec (a b z T F R : ℝ) :
+theorem nernst_spec (a b z T F R : ℝ) (ha : 0 < a) (hb : 0 < b) (hz : z ≠ 0) (hF : F ≠ 0) :
     nernstPotential a b z T = (8.3144598 * T) / (z * 96485.33289) * Real.log (a / b) ∧
     nernstPotentialC a b z T F R = (R * T) / (z * F) * Real.log (a / b) ∧
-    nernstPotential b a z T = - nernstPotential a b z T ∧ (a ≠ 0 → nernstPotential a a z T = 0) :=
-  ⟨nernst_eq a b z T, nernstC_eq a b z T F R, nernst_antisymm a b z T, nernst_equal_conc a z T⟩
+    nernstPotential b a z T = - nernstPotential a b z T ∧ nernstPotential a a z T = 0 ∧
+    nernstPotentialC a b z T F R * (z * F) = R * T * (Real.log a - Real.log b) := by
+  refine ⟨nernst_eq a b z T, nernstC_eq a b z T F R, nernst_antisymm a b z T, nernst_equal_conc a z T ha.ne', ?_⟩
+  rw [nernstC_eq, Real.log_div ha.ne' hb.ne']
+  field_simp
 
 /-- Einstein–Smoluchowski `μ = D z e / (kB T)`, i.e. `μ kB T = D z e` -/
-theorem mobility_spec (D z T kB e : ℝ) :
+theorem mobility_spec (D z T kB e : ℝ) (hk : kB ≠ 0) (hT : T ≠ 0) :
     mobility D z T = D * z * 1.60217662e-19 / (1.38064852e-23 * T) ∧
     mobilityC D z T kB e = D * z * e / (kB * T) ∧
-    (kB ≠ 0 → T ≠ 0 → mobilityC D z T kB e * (kB * T) = D * z * e) :=
-  ⟨mobility_eq D z T, mobilityC_eq D z T kB e, mobility_einstein D z T kB e⟩
+    mobilityC D z T kB e * (kB * T) = D * z * e :=
+  ⟨mobility_eq D z T, mobilityC_eq D z T kB e, mobility_einstein D z T kB e hk hT⟩
 
 /-- density_from_concentration inverts "concentration from density": whenever it returns `ρ` (no NoConvergence), `ρ` is
     the density `rho_cb(w)` at the mass fraction `w = conc · M / ρ'` of an iterate `ρ'` within `atol` of `ρ`
@@ -275,9 +399,84 @@ theorem density_from_concentration_fixed_point (rhoCb : ℝ → ℝ) (conc M ato
     ∃ ρ' : ℝ, ρ = rhoCb (conc * M / ρ') ∧ |ρ - ρ'| ≤ atol :=
   dfcIter_ok _ _ _ _ h
 
+/-- success characterisation (the theorem above is not vacuous): if the first iterate already lies within `atol` of the start value and at least
+    one iteration is allowed, the function returns that iterate; with `maxiter = 0` it always raises NoConvergence -/
+theorem density_from_concentration_success (rhoCb : ℝ → ℝ) (conc M atol rho0 : ℝ) (maxiter : Nat)
+    (h : |rhoCb (conc * M / rho0) - rho0| ≤ atol) :
+    (1 ≤ maxiter → densityFromConcentrationWith rhoCb conc M atol rho0 maxiter = .ok (rhoCb (conc * M / rho0))) ∧
+    densityFromConcentrationWith rhoCb conc M atol rho0 0 = .error "NoConvergence" := by
+  have habs : pyAbs (rhoCb (conc * M / rho0) - rho0) = |rhoCb (conc * M / rho0) - rho0| := by
+    unfold pyAbs
+    split
+    · rename_i hneg; rw [abs_of_neg]; simpa using hneg
+    · rename_i hneg; rw [abs_of_nonneg]; simpa using hneg
+  constructor
+  · intro hm
+    simp only [densityFromConcentrationWith, dfcIter, habs]
+    rw [if_neg (by omega), if_neg (not_lt.mpr h)]
+  · simp [densityFromConcentrationWith, dfcIter]
+
 /-- the hand model of `sulfuric_acid_density` is the double power sum `Σ_i w^i Σ_j data[i][j] t^j` of Myhre's equation (2) -/
 theorem sulfuric_acid_density_is_power_sum (wi t : ℝ) (row : List ℝ) (j : Nat) :
     rowSum wi t row j = wi * ((row.zipIdx j).map (fun p => p.1 * t ^ p.2)).sum := rowSum_eq wi t row j
+
+/-! ## source-text guards of the hand-modelled parts (a changed text opens the obligation; the hand model may be stale) -/
+
+/-- guard: the tail of `sulfuric_acid_density` that `tableSum` mirrors -/
+theorem sulfuric_tail_src_guard : sulfuricTailSrc =
+    ["t_arr = np.array([float(t_K) ** j for j in range(5)]).reshape((1, 5))",
+     "w_arr = np.array([w ** i for i in range(11)]).reshape((11, 1))",
+     "return np.sum(t_arr * w_arr * _data) * kg / m3"] := by decide
+
+/-- guard: `_data` is an 11 × 5 array (the ranges `range(11)`, `range(5)` of the source) -/
+theorem sulfuric_data_shape_guard : (sulfuric_data (α := Rat)).map List.length = List.replicate 11 5 := by decide
+
+theorem schumpe_body_src_guard : schumpeBodySrc =
+    ["if units is None:\n    M = 1\nelse:\n    M = units.molar",
+     "if warn and 'F-' in electrolytes:\n    warnings.warn('In Schumpe 1993: data for fluoride uncertain.')",
+     "return sum([(p_gas_rM[gas] / M + p_ion_rM[k] / M) * v for k, v in electrolytes.items()])"] := by decide
+
+theorem dfc_loop_src_guard : dfcLoopSrc =
+    "while atol < abs(delta_rho):\n    new_rho = rho_cb(conc * molar_mass / rho, T, units=units, warn=warn, **kwargs)\n    delta_rho = new_rho - rho\n    rho = new_rho\n    iter_idx += 1\n    if iter_idx > maxiter:\n        raise NoConvergence('maxiter exceeded')" := rfl
+
+theorem henry_call_src_guard : henryCallSrc =
+    ("Henry_H_at_T(T, self.Hcp, self.Tderiv, self.T0, units=units, backend=backend)", ["self", "T", "units", "backend"]) := by decide
+
+theorem henry_getC_src_guard : henryGetCSrc = ("P * self(T, **kwargs)", ["self", "T", "P"]) := by decide
+
+theorem henry_getP_src_guard : henryGetPSrc = ("c / self(T, **kwargs)", ["self", "T", "c"]) := by decide
+
+theorem henry_with_units_call_src_guard : henryWithUnitsCallSrc =
+    ("super(HenryWithUnits, self).__call__(T, units, backend)", ["self", "T", "units", "backend"]) := by decide
+
+/-! ## signature guards (defaults of the Python parameters, backend, warn flag: records emitted by the translator) -/
+
+theorem water_density_sig_guard :
+    sigGet waterDensitySig "T" = some "None" ∧ sigGet waterDensitySig "T0" = some "None" ∧ sigGet waterDensitySig "units" = some "None" ∧
+    sigGet waterDensitySig "a" = some "None" ∧ sigGet waterDensitySig "just_return_a" = some "False" ∧ sigGet waterDensitySig "warn" = some "True" := by
+  decide
+theorem water_viscosity_sig_guard :
+    sigGet waterViscositySig "T" = some "None" ∧ sigGet waterViscositySig "eta20" = some "None" ∧ sigGet waterViscositySig "units" = some "None" ∧
+    sigGet waterViscositySig "warn" = some "True" := by decide
+theorem water_diffusivity_sig_guard :
+    sigGet waterDiffusivitySig "T" = some "None" ∧ sigGet waterDiffusivitySig "units" = some "None" ∧ sigGet waterDiffusivitySig "warn" = some "True" ∧
+    sigGet waterDiffusivitySig "err_mult" = some "None" := by decide
+theorem water_permittivity_sig_guard :
+    sigGet waterPermittivitySig "T" = some "None" ∧ sigGet waterPermittivitySig "P" = some "None" ∧ sigGet waterPermittivitySig "units" = some "None" ∧
+    sigGet waterPermittivitySig "U" = some "None" ∧ sigGet waterPermittivitySig "just_return_U" = some "False" ∧
+    sigGet waterPermittivitySig "warn" = some "True" ∧ sigGet waterPermittivitySig "backend" = some "None" ∧
+    sigGet waterPermittivitySig "@backend" = some "get_backend(backend) ; be = get_backend(backend) ; be.exp ; be.log" := by decide
+theorem sulfuric_acid_density_sig_guard :
+    sigGet sulfuricTSig "T" = some "None" ∧ sigGet sulfuricTSig "T0" = some "None" ∧ sigGet sulfuricTSig "units" = some "None" ∧
+    sigGet sulfuricTSig "warn" = some "True" := by decide
+theorem henry_sig_guard :
+    sigGet henryHAtTDefaultSig "T0" = some "None" ∧ sigGet henryHAtTDefaultSig "units" = some "None" ∧ sigGet henryHAtTDefaultSig "backend" = some "None" := by
+  decide
+theorem nernst_sig_guard :
+    sigGet nernstPotentialSig "constants" = some "None" ∧ sigGet nernstPotentialSig "units" = some "None" ∧
+    sigGet nernstPotentialSig "backend" = some "math" ∧ sigGet nernstPotentialSig "@backend" = some "backend.log" := by decide
+theorem mobility_sig_guard :
+    sigGet mobilitySig "constants" = some "None" ∧ sigGet mobilitySig "units" = some "None" := by decide
 
 /-! ## non-vacuity / L2 examples (quantity algebra over ℚ, kernel-evaluated) -/
 
@@ -286,19 +485,16 @@ def Ldim : Units.Dims := [1, 0, 0, 0, 0, 0, 0]
 def Mdim : Units.Dims := [0, 1, 0, 0, 0, 0, 0]
 
 /-- 300000 mK with `meter = cm`, `kilogram = g`: SI value = plain value × 1000 (g/cm³ → kg/m³), dimension mass·length⁻³ -/
-example : (waterDensityU (UV.mk (300000 : Rat) (1/1000) Tdim) (UV.mk 1 1 Tdim) (UV.mk 1 (1/100) Ldim) (UV.mk 1 (1/1000) Mdim)).si
+example : (waterDensityU (UV.mk (300000 : Rat) (1/1000) Tdim) (UV.mk 1 1 Tdim) (UV.mk 1 (1/1000) Mdim) (UV.mk 1 (1/100) Ldim)).si
     = some (waterDensity (300 : Rat) * 1000, [-3, 1, 0, 0, 0, 0, 0]) := by decide +kernel
 
 /-- a pressure where a temperature is expected is refused (ValueError), not computed -/
-example : (waterDensityU (UV.mk (300 : Rat) 1 [-1, 1, -2, 0, 0, 0, 0]) (UV.mk 1 1 Tdim) (UV.mk 1 1 Ldim) (UV.mk 1 1 Mdim)).si = none := by
+example : (waterDensityU (UV.mk (300 : Rat) 1 [-1, 1, -2, 0, 0, 0, 0]) (UV.mk 1 1 Tdim) (UV.mk 1 1 Mdim) (UV.mk 1 1 Ldim)).si = none := by
   decide +kernel
 
 /-- sulfuric acid in the quantity algebra (as repaired): 300000 mK gives the plain value at 300 K, dimension mass·length⁻³ -/
-example : (sulfuricAcidDensityUV (1/2 : Rat) (UV.mk 300000 (1/1000) Tdim) (UV.mk 1 1 Tdim) (UV.mk 1 1 Ldim) (UV.mk 1 1 Mdim)).si
+example : (sulfuricAcidDensityUV (1/2 : Rat) (UV.mk 300000 (1/1000) Tdim) (UV.mk 1 1 Tdim) (UV.mk 1 1 Mdim) (UV.mk 1 1 Ldim)).si
     = some (sulfuricAcidDensity (1/2 : Rat) 300, [-3, 1, 0, 0, 0, 0, 0]) := by decide +kernel
-
-example : water_density_unit_mode_agrees 300 1 (1/100) (1/1000) one_ne_zero =
-    water_density_unit_mode_agrees 300 1 (1/100) (1/1000) one_ne_zero := rfl
 
 /-- a Henry constant tabulated at 20 °C (T0 = 293.15 K), quantities in mK: unit-mode value at T0 is the tabulated constant -/
 example : ((⟨1.3e-3, 1500, some 293.15⟩ : Henry ℝ).inUnit (1/1000)).callWithUnits (293.15 * (1/1000)) (1/1000) = 1.3e-3 := by
